@@ -434,3 +434,35 @@ class ParallelReplay:
         for it in items:
             self.pending.append(self.pool.apply_async(self.worker, (it,)))
         return self.finish()
+
+
+# ---------------------------------------------------------------- trace batches
+
+TRACE_CFG = """SPECIFICATION Spec
+CONSTRAINT Note
+POSTCONDITION Post
+CHECK_DEADLOCK FALSE
+"""
+
+
+def validate_batch(ctx, module, traces, label=None, timeout=900, extra_cfg='', dfs=False):
+    """Validate a list of traces (each a list of event dicts) with the trace
+    specification `module` (batch idiom: tid, l, TLCSet registers).
+    Returns list of (index0, furthest_line) for rejected traces."""
+    if not traces:
+        return []
+    work = scratch('trace')
+    path = os.path.join(work, 'traces.json')
+    with open(path, 'w') as f:
+        json.dump(traces, f, separators=(',', ':'))
+    rejected = []
+
+    def on_print(val):
+        if isinstance(val, list) and val and val[0] == 'REJECTED':
+            rejected.append((val[1] - 1, val[2]))
+    res = run_tlc(module, TRACE_CFG + extra_cfg, workers=1, on_print=on_print,
+                  env={'TRACE_FILE': path}, timeout=timeout, dfs=dfs)
+    shutil.rmtree(work, ignore_errors=True)
+    ctx.add_tlc(res, label or module)
+    ctx.validated += len(traces)
+    return rejected
